@@ -220,6 +220,10 @@ def mon_C01(case):
         for t in list(lastack):
             if t not in ln.cache:
                 lastack[t] = None          # unloaded or deleted: the next load starts from the stored counter
+        for t in [t for t in set(maxshown) | set(acked) if t.startswith("P:") and t not in ln.store]:
+            # a peer-to-peer topic which was deleted for good: the same two users may start a new one under the same name
+            for d in (maxshown, lastack, clean, acked, failed):
+                d.pop(t, None)
         crash_armed = i > 0 and case.ops[i - 1].startswith("crash")
         if crash_armed and ln.calls and len(w) > 2:
             clean[w[2]] = False
@@ -252,6 +256,11 @@ def mon_C01(case):
                         out.append((i, f"C01 [failed-save] description of {t} shows number {q} which was consumed by a publish whose save failed"))
                     elif clean.get(t, True):
                         out.append((i, f"C01 description of {t} shows number {q}, more than was ever acknowledged"))
+                reader = "R" in (k.get("acs", "").split("/") + ["", "", ""])[2]
+                pre_ = prev_state(case, i)
+                attached = pre_ is not None and t in pre_.sess.get(sid, set())     # a session which is not attached is told no numbers
+                if reader and attached and q < maxshown.get(t, 0) and t in ln.store:
+                    out.append((i, f"C01 description of {t} shows number {q} after number {maxshown[t]} had been shown"))
                 maxshown[t] = max(maxshown.get(t, 0), q)
         if pubt:
             t = pubt
